@@ -639,13 +639,26 @@ func ruleEscaperFastOn(r *Run, p *Prog, rule string, f *ssa.Function, text ssa.V
 		cs := necessaryCmps(f, rc)
 		// loop exit: idx >= len(text) with idx = phi[0, idx+1]
 		var idxPhi *ssa.Phi
+		var idxVal ssa.Value // the index used in the body: the phi itself, or phi+1 in go/ssa's range loops
+		rangeForm := false
 		exit := hasCmp(cs, func(op token.Token, x, y ssa.Value) bool {
-			ph, ok := x.(*ssa.Phi)
-			if !ok || !isLenOfText(y) || op != token.GEQ {
+			if !isLenOfText(y) || op != token.GEQ {
 				return false
 			}
-			idxPhi = ph
-			return true
+			if ph, ok := x.(*ssa.Phi); ok {
+				idxPhi, idxVal = ph, ph
+				return true
+			}
+			// for i, b := range text: index = phi + 1 with phi starting at -1
+			if inc, ok := x.(*ssa.BinOp); ok && inc.Op == token.ADD {
+				if one, ok := constInt(inc.Y); ok && one == 1 {
+					if ph, ok := inc.X.(*ssa.Phi); ok {
+						idxPhi, idxVal, rangeForm = ph, inc, true
+						return true
+					}
+				}
+			}
+			return false
 		})
 		if !exit || idxPhi == nil {
 			r.Ob(rule, name+"/raw-copy-after-scan", p.Pos(rc.Pos()), false, true, "the whole input is copied raw on a path that did not finish scanning it (no `i >= len(text)` on the way)")
@@ -655,20 +668,26 @@ func ruleEscaperFastOn(r *Run, p *Prog, rule string, f *ssa.Function, text ssa.V
 		okShape := true
 		for k, e := range idxPhi.Edges {
 			if idxPhi.Block().Dominates(idxPhi.Block().Preds[k]) {
+				if rangeForm {
+					if e != idxVal {
+						okShape = false
+					}
+					continue
+				}
 				bo, ok := e.(*ssa.BinOp)
 				if !ok || bo.Op != token.ADD || bo.X != ssa.Value(idxPhi) {
 					okShape = false
 				} else if n, ok := constInt(bo.Y); !ok || n != 1 {
 					okShape = false
 				}
-			} else if n, ok := constInt(e); !ok || n != 0 {
+			} else if n, ok := constInt(e); !ok || (!rangeForm && n != 0) || (rangeForm && n != -1) {
 				okShape = false
 			}
 		}
 		// every iteration passes the safe certificate for text[idx]
 		isB := func(v ssa.Value) bool {
 			idx, ok := byteAt(v, text)
-			return ok && idx == ssa.Value(idxPhi)
+			return ok && idx == idxVal
 		}
 		paths, complete := loopIterPaths(idxPhi.Block(), 2000)
 		okIter := complete && len(paths) > 0
